@@ -31,7 +31,7 @@ var Checks = map[string]CheckSpec{
 	"C02": {Property: "C02", Level: "exploration", Profiles: []string{"general", "clock", "book", "fixed", "vesting", "extreme", "crowd"}, QuickS: 75, ThoroughS: 600},
 	"C03": {Property: "C03", Level: "exploration", Profiles: []string{"book", "book", "rounds", "book", "crowd"}, QuickS: 75, ThoroughS: 600},
 	"C04": {Property: "C04", Level: "exploration", Profiles: []string{"book", "fixed", "book", "general"}, QuickS: 75, ThoroughS: 600},
-	"C05": {Property: "C05", Level: "exploration", Profiles: []string{"book", "fixed", "rounds", "general"}, QuickS: 75, ThoroughS: 600},
+	"C05": {Property: "C05", Level: "exploration", Profiles: []string{"book", "fixed", "rounds", "general", "book", "fixed", "crowd"}, QuickS: 75, ThoroughS: 600},
 	"C06": {Property: "C06", Level: "exploration", Profiles: []string{"fixed", "fixed", "general"}, Opts: ExecOpts{Lin: true}, QuickS: 75, ThoroughS: 600},
 	"C07": {Property: "C07", Level: "fault_enumeration", Profiles: []string{"general", "book", "idle", "extreme", "clock", "book", "sprawl", "crowd"}, Opts: ExecOpts{BankFailEnum: true, MaxEnumBlocks: 5}, QuickS: 90, ThoroughS: 900},
 	"C08": {Property: "C08", Level: "exploration", Profiles: []string{"clock", "general", "rounds", "clock", "general", "rounds", "sprawl"}, QuickS: 75, ThoroughS: 600},
